@@ -62,7 +62,8 @@ def dumpNode (sh : Shape) (n : Node) : String :=
   let pss : List String := (n.partitions.map (fun p =>
     ["PS", hex p.name, toString p.prio, toString p.level, toString p.nr, toString p.ne] ++
     (p.patches.map (fun l => toString l.length :: l.map toString)).flatten)).flatten
-  " ".intercalate (meshPart ++ ["NP", toString n.parts.length] ++ parts ++ ["NPS", toString n.partitions.length] ++ pss ++ ["NC", "0"])
+  " ".intercalate (meshPart ++ ["NP", toString n.parts.length] ++ parts ++ ["NPS", toString n.partitions.length] ++ pss ++
+    ["NC", toString n.charts.length] ++ n.charts.map (fun nc => hex nc.1))
 
 def doMesh (text : Str) : String :=
   match parseMeshFile text with
